@@ -64,6 +64,9 @@ ReissueProbe(c, s, now) ==
 FailProbe(c, s) ==
     [s EXCEPT !.buf[s.seq - s.rseq - 1].st = "F"]
 
+\* `strictReset` switches to a reset only by a router strictly beyond the established distance (the must-fail
+\* instance MC_Sched_C10_strict: a stale distance then survives a path that has grown)
+StrictReset(c) == "strictReset" \in DOMAIN c /\ c.strictReset
 \* complete_probe(), reached only when check_trace_id and in_round hold for q
 CompleteProbe(c, s, q, host, isTarget, now) ==
     LET i    == q - s.rseq
@@ -73,7 +76,7 @@ CompleteProbe(c, s, q, host, isTarget, now) ==
              [s EXCEPT !.buf[i] = [slot EXCEPT !.st = "C", !.host = host, !.recv = now],
                        !.tt = IF isTarget
                               THEN (IF @ = 0 THEN t ELSE IF t < @ THEN t ELSE @)
-                              ELSE (IF @ # 0 /\ t >= @ THEN 0 ELSE @),
+                              ELSE (IF @ # 0 /\ (IF StrictReset(c) THEN t > @ ELSE t >= @) THEN 0 ELSE @),
                        !.mrt = IF @ = 0 THEN t ELSE IF t > @ THEN t ELSE @,
                        !.rt = now,
                        !.tf = @ \/ isTarget]
